@@ -298,6 +298,8 @@ type opResult struct {
 	probeSent     map[ch.NodeID]int
 	probeAnswered map[ch.NodeID]int
 	holdAtStart map[ch.NodeID]map[uint64]bool
+	// viewsAtStart is every voter's durable state when the install was invoked
+	viewsAtStart map[ch.NodeID]replicaView
 	exactRetry  bool
 	conflicting bool
 }
@@ -315,6 +317,8 @@ type chanState struct {
 	fenceToken map[ch.NodeID]bool
 	installs   []*opResult // every Install issued for this channel, in invocation order
 	ops        []*opResult // every operation issued for this channel, in invocation order
+	poisoned   bool        // authorities have overlapped in this channel's history (adversarial regime only)
+	owners     map[string]*ownerModel // C04 owner model per node incarnation
 }
 
 type ledgerEntry struct {
